@@ -413,6 +413,8 @@ def _expect_compressed_v2(comp):
     return isinstance(comp, dict) or (comp is not None and comp.upper() != "UNCOMPRESSED")
 
 
+from vf.pyxlift import idl as IDLM
+_IDL = IDLM.parse()
 NCATS = int(os.environ.get("VERIF_NCATS", "3"))
 PAGES = int(os.environ.get("VERIF_PAGES", "2"))             # number of data pages (lattice)
 LIM = 1 << 24                                               # bound on every symbolic length (no 2^31 overflow path)
@@ -566,6 +568,13 @@ def check(n, rpp, start, nulls, hdr, dl, vl, cl, dict_len, dict_comp, ncats, vma
     if STATS and npages > 0 and vmax is not None:
         if md.statistics.max != ("plain-stat", vmax) or md.statistics.min != ("plain-stat", vmin):
             return False, "statistics min/max are not the column's min/max"
+    # every structure handed to the serialiser says which of its integers are 32 bits wide (the serialiser itself
+    # is C10's subject: it writes an unmarked integer as i64)
+    faults = IDLM.marker_faults(_IDL, "ColumnChunk", chunk)
+    for hp, ph, hl in hdrs:
+        faults += IDLM.marker_faults(_IDL, "PageHeader", ph)
+    if faults:
+        return False, "; ".join(faults)
     return A.bad == 0, "; ".join(A.why) or "ok"
 
 
